@@ -193,6 +193,25 @@ theorem fixed_projection_filter (re : ReOracle) (e : Filter) (f : FilterFn) (exc
   simp only [outTest] at this t
   rw [← t i hi]; exact this
 
+/-- **rejected_parse_leaves_filter**: a `Parse` call that rejects one of its fields — also one
+that comes AFTER a field with a fixed value list in the same expression — returns the error and
+leaves the caller's filter exactly as it was. -/
+theorem rejected_parse_leaves_filter (excl : List Bytes) (fields : List ProjField) (user : FilterFn) (err : ProjErr)
+    (h : checkFields fields = .error err) : parseCall excl fields user = (user, some err) :=
+  parseCall_rejected excl fields user err h
+
+/-- **fixed_projection_history**: after any history of `Parse` calls on one filter, accepted and
+rejected ones in any interleaving, measurement `i` is matched iff every fixed field of the
+ACCEPTED expressions has its projected value in its list and the caller's expression holds at `i`;
+rejected expressions contribute nothing. -/
+theorem fixed_projection_history (re : ReOracle) (e : Filter) (f : FilterFn) (excl : List Bytes)
+    (projs : List (List ProjField)) (res : Res) (i : Nat)
+    (h : walk re e = .ok f) (hi : i < res.values.length) :
+    (filterMatch (parseHistory excl projs f) res).test i =
+      ((acceptedOf projs).flatten.all (inFixed excl · res) && denote re res i e) := by
+  rw [parseHistory_eq]
+  exact fixed_projection_filter re e f excl (acceptedOf projs) res i h hi
+
 /-- a result whose projected value is missing from some fixed list is removed entirely -/
 theorem fixed_projection_removes (re : ReOracle) (e : Filter) (f : FilterFn) (excl : List Bytes)
     (projs : List (List ProjField)) (res : Res) (h : walk re e = .ok f)
